@@ -314,8 +314,11 @@ def op_ro(self, a, targets):
                 ids = t.getRankIds()
                 if any(not isinstance(r, str) for r in ids):
                     raise Skip("list rank ids")
+                auth = t.getShape(authoritative=True)
                 for i, rid in enumerate(ids):
-                    spec[rid] = {"format": "U" if (a.get("fmtmask", 0) >> i) & 1 and _flat_ok(sl.shape[i]) else "C",
+                    # an uncompressed footprint needs the rank's shape: only where the tensor declares it
+                    u_ok = auth is not None and i < len(auth) and isinstance(auth[i], int) and auth[i] > 0
+                    spec[rid] = {"format": "U" if (a.get("fmtmask", 0) >> i) & 1 and u_ok else "C",
                                  "rhbits": 3, "fhbits": 5, "cbits": 7, "pbits": 11}
                 fm = Format(t, spec)
                 tot = fm.getTensor()
@@ -326,7 +329,7 @@ def op_ro(self, a, targets):
                 for i, rid in enumerate(ids):
                     want = 3
                     for fb in (lv[i] if i < len(lv) else []):
-                        n = len(fb.coords) if spec[rid]["format"] == "C" else sl.shape[i]
+                        n = len(fb.coords) if spec[rid]["format"] == "C" else auth[i]
                         want += 5 + 18 * n
                     if per[i] != want:
                         self.V("C02", "C02.derived-footprint", "ro_format",
